@@ -27,7 +27,8 @@ Fixpoint msexpr (fuel : nat) (p : program) (inp : inputs) (e : expr) {struct fue
     | ELt a b => do x <- msexpr f p inp a; do y <- msexpr f p inp b; Some (if x <? y then 1 else 0)
     | EMod a m => do x <- msexpr f p inp a; Some (x mod m)
     | EIf c a b => do x <- msexpr f p inp c; msexpr f p inp (if x =? 0 then b else a)
-    | EGroup _ => None
+    | EGroup [] => Some 0
+    | EGroup (n :: ns) => do x <- msexpr f p inp (ERead n); do y <- msexpr f p inp (EGroup ns); Some (x + y)
     end
   end.
 Definition MdlSpec (p : program) (inp : inputs) (n : node) (v : Z) : Prop :=
@@ -46,6 +47,19 @@ Record wf_model (p : program) : Prop := {
   wfm_rank : exists rank : node -> nat, forall n e d, In (n, e) p -> In d (expr_reads e) ->
                  is_mexec_kind (nkind d) = true -> (rank d < rank n)%nat;
 }.
+
+(** the same with unordered groups allowed (the value of a group is the sum of its members) *)
+Record wf_model_g (p : program) : Prop := {
+  wfg_keys : forall n e, In (n, e) p -> is_mexec_kind (nkind n) = true;
+  wfg_targets : forall n e d, In (n, e) p -> In d (expr_reads e) ->
+                 nkind d = KInput \/ (is_mexec_kind (nkind d) = true /\ alookup p d <> None);
+  wfg_proj : forall n e d, In (n, e) p -> nkind n = KProjection -> In d (expr_reads e) ->
+                 is_fw_or_proj (nkind d) = true;
+  wfg_rank : exists rank : node -> nat, forall n e d, In (n, e) p -> In d (expr_reads e) ->
+                 is_mexec_kind (nkind d) = true -> (rank d < rank n)%nat;
+}.
+Lemma wf_model_g_of : forall p, wf_model p -> wf_model_g p.
+Proof. intros p [A B C D]. split; auto. intros n e H. apply (A n e H). Qed.
 
 (** histories in scope: input sessions without refresh, queries (not of external inputs), restarts *)
 Definition op_in_scope (o : op) : Prop :=
@@ -129,6 +143,22 @@ Definition model_sessions_fuelled (p : program) (ops : list op) (i : nat) : Prop
     nth_error (run_history p init_state ops) k = Some rk -> r_out rk <> RFuel.
 Definition model_sound_statement : Prop :=
   forall p ops i n r z, wf_model p -> Forall op_in_scope ops ->
+    model_sessions_fuelled p ops i ->
+    nth_error ops i = Some (OQuery n) ->
+    nth_error (run_history p init_state ops) i = Some r ->
+    r_out r = RValue z ->
+    MdlSpec p (inputs_after (firstn i ops)) n z.
+
+(** the same for programs with unordered groups *)
+Definition model_sound_g_statement_f : Prop :=
+  forall fuel pfuel p ops i n r z, wf_model_g p -> Forall op_in_scope ops ->
+    msessions_fuelled fuel pfuel p ops i ->
+    nth_error ops i = Some (OQuery n) ->
+    nth_error (run_history_f fuel pfuel p init_state ops) i = Some r ->
+    r_out r = RValue z ->
+    MdlSpec p (inputs_after (firstn i ops)) n z.
+Definition model_sound_g_statement : Prop :=
+  forall p ops i n r z, wf_model_g p -> Forall op_in_scope ops ->
     model_sessions_fuelled p ops i ->
     nth_error ops i = Some (OQuery n) ->
     nth_error (run_history p init_state ops) i = Some r ->
